@@ -778,6 +778,15 @@ def parser_details(repo, rep, rule="R03.3"):
                   "front of a field that admits white space",
                   construct="tag-space:" + cname,
                   detail="; ".join(sorted({t for k, t in probs})))
+    rcn = repo.const("chameleon.parser", "match_tag_prefix_and_name")
+    gin = _re.compile(rcn.pattern, rcn.flags).groupindex
+    locn = rx.locate_group(rx.parse(rcn.pattern, rcn.flags), gin["name"])
+    csn = rx.all_chars(locn[0]) if locn is not None else None
+    rep.check(csn is not None and not any(ch in csn for ch in " \t\n\r>")
+              and all(ch in csn for ch in "a:-_."), rule,
+              "chameleon.parser.match_tag_prefix_and_name", "a tag name "
+              "(with its prefix) contains no white space and no '>'",
+              construct="tag-name-class", detail=str(csn))
     rc = repo.const("chameleon.parser", "match_single_attribute")
     gi = _re.compile(rc.pattern, rc.flags).groupindex
     loc = rx.locate_group(rx.parse(rc.pattern, rc.flags), gi["alt_value"])
